@@ -933,11 +933,58 @@ def apply_edit(op, fams, ctx, scratch) -> bool:
     return True
 
 
+PROBE_VALIDATE = {"op": "validate", "vsel": 0, "omit": 0, "muts": [], "snap_schema": False}
+
+
+def pyd_copy_predicate(fam: Family) -> str:
+    """Ledger predicate of the copies of a pydantic grammar (two root causes: internal / user model class)."""
+    return "pydantic_user_model_shared_by_copies" if fam.pyd_user_model else "pydantic_edit_after_copy"
+
+
+def copy_independence_probe(fam: Family, ctx) -> None:
+    """Edits of a throw-away copy that do not touch the required names must leave the original alone.
+
+    (The edits are chosen outside the class of the finding 'edit_after_copy': an optional element is
+    deleted and a required element gets another type, so the shared required-names set is not changed.)
+    """
+    desc, _ = build_data(PROBE_VALIDATE, fam)
+    probed = False
+    for kind in fam.kinds():
+        g, m = fam.g[kind], fam.m[kind]
+        if not m.types:
+            continue
+        if kind == "pyd" and ctx.known(pyd_copy_predicate(fam)):
+            ctx.cls("known:pydantic_copy_probe_skipped")
+            continue
+        throwaway = g.copy()
+        optional = [n for n in m.types if n not in m.required]
+        required = [n for n in m.types if n in m.required]
+        if optional:
+            del throwaway[optional[0]]
+        if required:
+            name = required[0]
+            if kind == "pyd":
+                new_type = np.ndarray if m.types[name] == "str" else str
+            elif kind == "simple":
+                new_type = int if m.types[name] is str else str
+            else:
+                new_type = int if m.types[name] == ("string",) else str
+            throwaway.update_from_types({name: new_type})
+        # validating the copy makes a pydantic grammar rebuild its model class
+        verdict_of(throwaway, materialize(desc), ctx, kind)
+        check_against_model(ctx, g, m, "after editing a copy")
+        probed = True
+    if probed:
+        _validate_all(fam, desc, ctx, "original after editing a copy")
+        ctx.cls("copy_independence_probed")
+
+
 def apply_copy(op, fams, ctx) -> None:
     """copy(): the copy equals the original; then (no open finding) it replaces the other slot and lives on."""
     fam: Family = fams[op["slot"]]
     dst: Family = fams[1 - op["slot"]]
     all_known = ctx.known("edit_after_copy", count=False)
+    copy_independence_probe(fam, ctx)
     for kind in fam.kinds():
         g, m = fam.g[kind], fam.m[kind]
         clone = g.copy()
@@ -949,7 +996,7 @@ def apply_copy(op, fams, ctx) -> None:
             ctx.known("edit_after_copy")
             ctx.cls("known:copy_observed_then_dropped")
             continue
-        if kind == "pyd" and ctx.known("pydantic_edit_after_copy"):
+        if kind == "pyd" and ctx.known(pyd_copy_predicate(fam)):
             ctx.cls("known:pydantic_copy_observed_then_dropped")
             continue
         dst.g[kind] = clone
@@ -1137,7 +1184,7 @@ def case_history(p, ctx):
     scratch = tempfile.mkdtemp(dir=os.environ.get("VERIF_SCRATCH"))
     try:
         fams = [Family(p["pyd"]) for _ in range(N_SLOTS)]
-        probe_op = {"op": "validate", "vsel": 0, "omit": 0, "muts": [], "snap_schema": False}
+        probe_op = PROBE_VALIDATE
         for step, op in enumerate(p["ops"]):
             name = op["op"]
             ctx.cls("op:" + name)
